@@ -538,6 +538,7 @@ func (C19) Run(t *testing.T, sc *core.Scenario, res *core.Result) {
 	overlapChannelMiss, parkedStream, parkedChannel, parkedLock := false, false, false, false
 	poolsNeutral := true
 	stalled := false
+	registered := make([]bool, len(clients)) // client = track
 	doStep := func(ci int) bool {
 		// no pooled object and no pool clock may carry one operation's history into the next one
 		ygDrainPools()
@@ -553,6 +554,9 @@ func (C19) Run(t *testing.T, sc *core.Scenario, res *core.Result) {
 			return true
 		}
 		delete(parkedNow, ci)
+		if st.Parked == "" {
+			registered[ci] = true // an upload of this track has been handled completely: the track is registered
+		}
 		if st.Parked != "" {
 			parkedNow[ci] = st.Parked
 			if strings.HasPrefix(st.Parked, "lock#") {
@@ -603,6 +607,18 @@ runLoop:
 			}
 			if !allStarted {
 				res.Count("probe.stall-skipped-channel-not-started")
+				continue
+			}
+			// ... and only when no track can register during the stall: a registration while reports are queued
+			// changes which numbers count as complete (the result then equals another sequential order)
+			allRegistered := true
+			for ci := range clients {
+				if len(clients[ci]) > 0 && !registered[ci] {
+					allRegistered = false
+				}
+			}
+			if !allRegistered {
+				res.Count("probe.stall-skipped-track-not-registered")
 				continue
 			}
 			runner.StallBackground(true)
